@@ -222,77 +222,21 @@ __CPROVER_ensures((g_c07_dead && !g_c07_eos && d->len > 0) ==> (__CPROVER_return
 __CPROVER_ensures((drec1->passthrough != O(drec1->passthrough)) ==> (drec1->passthrough == 1 && GZ(drec1)->zlib_initialized == 0 && g_c07_cb == 1 && !g_c07_cb_failed &&
     g_c07_cb_ptr == d->data && g_c07_cb_len == d->len && __CPROVER_return_value == HTP_OK))
 ;
+
+/* factory: establishes the object invariant that contract_htp_gzip_decompressor_decompress requires, and applies the LZMA switches */
+#define C07_LZMA_OFF(c) ((c)->cfg->lzma_memlimit == 0 || (c)->cfg->response_lzma_layer_limit <= 0)
+htp_decompressor_t *contract_htp_gzip_decompressor_create(htp_connp_t *connp, enum htp_content_encoding_t format)
+__CPROVER_requires(__CPROVER_is_fresh(connp, sizeof(*connp)) && __CPROVER_is_fresh(connp->cfg, sizeof(htp_cfg_t)))
+__CPROVER_assigns()
+__CPROVER_ensures(__CPROVER_return_value == NULL || (
+    (format == HTP_COMPRESSION_GZIP || format == HTP_COMPRESSION_DEFLATE || format == HTP_COMPRESSION_LZMA) &&
+    __CPROVER_rw_ok(GZ(__CPROVER_return_value)->buffer, C07_BUF) && C07_DREC_FIELDS(GZ(__CPROVER_return_value)) &&
+    GZ(__CPROVER_return_value)->stream.avail_out == C07_BUF && GZ(__CPROVER_return_value)->zlib_initialized == (int) format &&
+    GZ(__CPROVER_return_value)->restart == 0 && GZ(__CPROVER_return_value)->header_len == 0 &&
+    __CPROVER_return_value->next == NULL && __CPROVER_return_value->callback == NULL &&
+    /* a disabled LZMA (memory limit 0 or LZMA layer limit <= 0) never decompresses: the layer is created in passthrough mode */
+    __CPROVER_return_value->passthrough == ((format == HTP_COMPRESSION_LZMA && C07_LZMA_OFF(connp)) ? 1 : 0)))
+;
 #endif /* C07_UNIT_DECOMPRESS */
 
-#ifdef C07_UNIT_CHAIN
-/* ================================================================================================ unit 3 */
-/* everything around the chain-building loop is replaced by frame stubs with arbitrary results, so every header value / token
- * sequence / hook outcome is covered; the decompressor factory counts what it hands out */
-void *contract_c07_htp_table_get_c(const htp_table_t *table, const char *ckey)
-__CPROVER_requires(1) __CPROVER_assigns()
-__CPROVER_ensures(__CPROVER_return_value == NULL || (__CPROVER_is_fresh(__CPROVER_return_value, sizeof(htp_header_t)) &&
-    __CPROVER_is_fresh(((htp_header_t *) __CPROVER_return_value)->value, sizeof(bstr) + C07_CECAP) &&
-    ((htp_header_t *) __CPROVER_return_value)->value->realptr == NULL && ((htp_header_t *) __CPROVER_return_value)->value->len <= C07_CECAP));
-int contract_c07_bstr_cmp_c_nocasenorzero(const bstr *b, const char *c) __CPROVER_requires(b != NULL) __CPROVER_assigns() __CPROVER_ensures(1);
-int contract_c07_bstr_util_cmp_mem(const void *data1, size_t len1, const void *data2, size_t len2) __CPROVER_requires(1) __CPROVER_assigns() __CPROVER_ensures(1);
-int contract_c07_bstr_util_mem_index_of_c_nocase(const void *data, size_t len, const char *cstr) __CPROVER_requires(1) __CPROVER_assigns() __CPROVER_ensures(1);
-htp_status_t contract_c07_htp_connp_res_receiver_finalize_clear(htp_connp_t *connp)
-__CPROVER_requires(__CPROVER_rw_ok(connp, sizeof(*connp))) __CPROVER_assigns(connp->out_data_receiver_hook) __CPROVER_ensures(1);
-/* user hooks may switch decompression off or force it (documented scenarios 2 and 3 in the source) */
-htp_status_t contract_c07_htp_hook_run_all(htp_hook_t *hook, void *user_data)
-__CPROVER_requires(__CPROVER_rw_ok((htp_tx_t *) user_data, sizeof(htp_tx_t))) __CPROVER_assigns(((htp_tx_t *) user_data)->response_content_encoding_processing) __CPROVER_ensures(1);
-static void contract_c07_htp_tx_res_destroy_decompressors(htp_connp_t *connp)
-__CPROVER_requires(__CPROVER_rw_ok(connp, sizeof(*connp)) && g_c07_made == 0) __CPROVER_assigns(connp->out_decompressor, g_c07_destroyed)
-__CPROVER_ensures(connp->out_decompressor == NULL && g_c07_destroyed == 1);
-/* tokenizer: any token inside or outside the value (it is only handed to the replaced comparison helpers), no longer than the input */
-static int contract_c07_get_token(const unsigned char *in, size_t in_len, const char *seps, unsigned char **ret_tok_ptr, size_t *ret_tok_len)
-__CPROVER_requires(__CPROVER_rw_ok(ret_tok_ptr, sizeof(*ret_tok_ptr)) && __CPROVER_rw_ok(ret_tok_len, sizeof(*ret_tok_len)) && in_len <= C07_CECAP && __CPROVER_r_ok(in, in_len))
-__CPROVER_assigns(*ret_tok_ptr, *ret_tok_len)
-__CPROVER_ensures((__CPROVER_return_value == 0 || __CPROVER_return_value == 1) && (__CPROVER_return_value == 1 ==> *ret_tok_len <= in_len));
-/* factory: asked only for a real coding; NULL (sticky failure flag) or a fresh, unlinked decompressor; counts layers and LZMA layers */
-htp_decompressor_t *contract_c07_htp_gzip_decompressor_create(htp_connp_t *connp, enum htp_content_encoding_t format)
-__CPROVER_requires(format == HTP_COMPRESSION_GZIP || format == HTP_COMPRESSION_DEFLATE || format == HTP_COMPRESSION_LZMA)
-__CPROVER_requires(g_c07_made >= 0 && g_c07_made < 64 && g_c07_made_lzma >= 0 && g_c07_made_lzma <= g_c07_made && g_c07_make_failed == 0)
-__CPROVER_assigns(g_c07_made, g_c07_made_lzma, g_c07_make_failed)
-__CPROVER_ensures(__CPROVER_return_value == NULL
-    ? (g_c07_made == O(g_c07_made) && g_c07_made_lzma == O(g_c07_made_lzma) && g_c07_make_failed == 1)
-    : (__CPROVER_is_fresh(__CPROVER_return_value, sizeof(htp_decompressor_gzip_t)) && __CPROVER_return_value->next == NULL && __CPROVER_return_value->callback == NULL &&
-       g_c07_made == O(g_c07_made) + 1 && g_c07_made_lzma == O(g_c07_made_lzma) + (format == HTP_COMPRESSION_LZMA ? 1 : 0) && g_c07_make_failed == 0));
-
-#define C07_CB_RES htp_tx_res_process_body_data_decompressor_callback
-#define C07_CHAIN0(c) ((c)->out_decompressor == NULL)
-#define C07_CHAIN1(c) ((c)->out_decompressor != NULL && (c)->out_decompressor->callback == C07_CB_RES && (c)->out_decompressor->next == NULL)
-#define C07_CHAIN2(c) ((c)->out_decompressor != NULL && (c)->out_decompressor->callback == C07_CB_RES && (c)->out_decompressor->next != NULL && \
-    (c)->out_decompressor->next->callback == C07_CB_RES && (c)->out_decompressor->next->next == NULL)
-#define C07_CHAIN3(c) ((c)->out_decompressor != NULL && (c)->out_decompressor->callback == C07_CB_RES && (c)->out_decompressor->next != NULL && \
-    (c)->out_decompressor->next->callback == C07_CB_RES && (c)->out_decompressor->next->next != NULL && \
-    (c)->out_decompressor->next->next->callback == C07_CB_RES && (c)->out_decompressor->next->next->next == NULL)
-#define LAYER_LIMIT(tx) ((tx)->connp->cfg->response_decompression_layer_limit)
-#define LZMA_LIMIT(tx) ((tx)->connp->cfg->response_lzma_layer_limit)
-htp_status_t contract_htp_tx_state_response_headers(htp_tx_t *tx)
-__CPROVER_requires(__CPROVER_is_fresh(tx, sizeof(*tx)) && __CPROVER_is_fresh(tx->connp, sizeof(htp_connp_t)) && __CPROVER_is_fresh(tx->connp->cfg, sizeof(htp_cfg_t)))
-/* BOUND of this unit: a configured layer limit of 1..C07_MAXLAYERS (default 2); 0 = "no limit" leaves nothing to prove about the count */
-__CPROVER_requires(LAYER_LIMIT(tx) >= 1 && LAYER_LIMIT(tx) <= C07_MAXLAYERS)
-__CPROVER_requires(g_c07_made == 0 && g_c07_made_lzma == 0 && g_c07_make_failed == 0 && g_c07_destroyed == 0)
-__CPROVER_requires(tx->connp->out_decompressor == NULL || __CPROVER_is_fresh(tx->connp->out_decompressor, sizeof(htp_decompressor_gzip_t)))
-__CPROVER_assigns(g_c07_made, g_c07_made_lzma, g_c07_make_failed, g_c07_destroyed, tx->response_content_encoding, tx->response_content_encoding_processing,
-                  tx->connp->out_decompressor, tx->connp->out_data_receiver_hook)
-/* L1 no more layers than configured */
-__CPROVER_ensures(g_c07_made <= LAYER_LIMIT(tx))
-/* L2 LZMA layers: a list of codings never yields more LZMA layers than response_lzma_layer_limit; a single "lzma" coding yields one object
- *    (whether it decompresses or passes through is decided inside the factory from the same limit: unit c07_create) */
-__CPROVER_ensures(g_c07_made_lzma <= 1 || g_c07_made_lzma <= LZMA_LIMIT(tx))
-__CPROVER_ensures((g_c07_made >= 2 && g_c07_made_lzma >= 1) ==> g_c07_made_lzma <= LZMA_LIMIT(tx))
-/* L3 ownership: every layer handed out by the factory is linked from connp->out_decompressor, in creation order, with the response
- *    sink as its callback and a NULL-terminated next chain - also when a later creation failed (nothing leaks, the partial chain
- *    stays owned by the parser and is released by htp_tx_res_destroy_decompressors); an old chain is destroyed before the first creation */
-__CPROVER_ensures(g_c07_made == 0 ==> (C07_CHAIN0(tx->connp) || (tx->connp->out_decompressor == O(tx->connp->out_decompressor) && !g_c07_destroyed && !g_c07_make_failed)))
-__CPROVER_ensures(g_c07_made == 1 ==> C07_CHAIN1(tx->connp))
-__CPROVER_ensures(g_c07_made == 2 ==> C07_CHAIN2(tx->connp))
-__CPROVER_ensures(g_c07_made == 3 ==> C07_CHAIN3(tx->connp))
-__CPROVER_ensures((g_c07_made > 0 || g_c07_make_failed) ==> (O(tx->connp->out_decompressor) == NULL || g_c07_destroyed))
-/* L4 a failed creation is reported */
-__CPROVER_ensures(g_c07_make_failed ==> __CPROVER_return_value == HTP_ERROR)
-;
-#endif /* C07_UNIT_CHAIN */
 #endif
